@@ -391,6 +391,15 @@ def special_pq_specs(rng):
         rows = [None if (nullable and i == 2) else long_vals[i] for i in range(6)]
         fs = FileSpec(codec, [Col("a", "ba", nullable)], [[[rows[:2], rows[2:5], rows[5:]]]], dict_encoded=(enc != "PLAIN"))
         special.append((fs, dict(encoding=enc, page_stats=True)))
+    # pages WITHOUT a stored CRC read with verify_checksums on (the histories alternate verify 0 / 1), dictionary page
+    # included; and a BYTE_ARRAY dictionary whose LAST entry is the empty string (exactly 4 bytes left for it)
+    for typ, nullable, enc in (("i32", True, "PLAIN"), ("ba", False, "RLE_DICTIONARY"), ("i64", False, "RLE_DICTIONARY")):
+        n, sizes = 5, [2, 3]
+        mask = [False, True, False, False, True] if nullable else [False] * n
+        fs = FileSpec(0, [Col("a", typ, nullable)], [[rc.make_chunk(typ, mask, sizes)]], dict_encoded=(enc != "PLAIN"))
+        special.append((fs, dict(encoding=enc, crc=False)))
+    fs = FileSpec(0, [Col("a", "ba", False)], [[[[b"aa", b"b"], [b"aa", b"", b"b", b""]]]], dict_encoded=True)
+    special.append((fs, dict(encoding="RLE_DICTIONARY", dictionary=[b"aa", b"b", b""])))
     return special
 
 
@@ -438,7 +447,7 @@ def gen_pq_cases(tier, rng):
     special = special_pq_specs(rng)
     for fs, kw in special:
         try:
-            fs.use_bytes(rc.pq_bytes(fs, crc=True, rng=rng, **kw))
+            fs.use_bytes(rc.pq_bytes(fs, rng=rng, **dict(dict(crc=True), **kw)))
         except Exception as e:
             log(f"C02: pq.py cannot write {kw}: {e}")
             continue
